@@ -291,7 +291,7 @@ class Batch:
         raise BuildError("could not build batch")
 
     # ------------------------------------------------------------------------------------------------
-    def run(self, runs, timeout=600):
+    def run(self, runs, timeout=600, zero_heap=False):
         """runs: list of (run_id:str, prog, [script lines]). Returns {run_id: Run}. Sanitizer aborts are attributed to
         the run under way and the binary is restarted on the remaining runs."""
         out = {}
@@ -307,6 +307,8 @@ class Batch:
         byid = {rid: (i, p, lines) for i, (rid, p, lines) in enumerate(todo)}
         env = dict(os.environ)
         env.update(RUN_ENV)
+        if zero_heap:   # deterministic content of fresh heap blocks (differential checks); C03 keeps ASan's 0xbe fill
+            env["ASAN_OPTIONS"] += ":max_malloc_fill_size=65536:malloc_fill_byte=0"
         skip = 0
         rounds = 0
         while skip < len(todo):
